@@ -53,11 +53,12 @@ const (
 	opRestart
 	opCrash
 	opTruncateBeyond
+	opAppendGap
 	nOps
 )
 
 var opNames = []string{"NewTerm(same)", "NewTerm(+1)", "NewTerm(stale)", "Append(next,term)", "Append(next,stale term)", "Append(re-sent,stale term)",
-	"Truncate(last-1)", "Truncate(re-delivered)", "Snapshot(complete)", "Snapshot(interrupted)", "Snapshot(stale term)", "Restart", "Crash", "Truncate(beyond the end)"}
+	"Truncate(last-1)", "Truncate(re-delivered)", "Snapshot(complete)", "Snapshot(interrupted)", "Snapshot(stale term)", "Restart", "Crash", "Truncate(beyond the end)", "Append(next+1,term)"}
 
 type mentry struct {
 	term int64
@@ -451,6 +452,29 @@ func (n *node) step(op int) bool {
 		}
 		if op == opTruncate {
 			n.lastTrunc = req
+		}
+	case opAppendGap:
+		// an entry of the current term that skips one offset (a leader resuming from a wrong position): the log
+		// refuses it and the stream ends; nothing may be acknowledged, and what is sent afterwards is stored before
+		// it is acknowledged. Only with entries in the log: an empty log (after a snapshot) takes any offset.
+		if n.ackTerm < 0 || n.last < 0 || n.last < n.first || n.brokenSnapshot {
+			return false
+		}
+		if _, wo := n.walLast(); wo != n.last {
+			return false
+		}
+		if !n.ensureStream(n.ackTerm) {
+			return false
+		}
+		off := n.last + 2
+		n.nextID++
+		before := len(*n.acks)
+		if err := n.stream.Send(&proto.Append{Term: n.ackTerm, Entry: &proto.LogEntry{Term: n.ackTerm, Offset: off, Value: value(n.nextID), Timestamp: uint64(1000 + off)}, CommitOffset: n.last}); err != nil {
+			return true
+		}
+		s.Settle()
+		if len(*n.acks) > before {
+			n.failf("acked-entry-not-stored", "Append(offset %d) on a log that ends at %d was acknowledged (%v): the entry cannot follow the log's last one", off, n.last, (*n.acks)[before:])
 		}
 	case opTruncateBeyond:
 		// the leader of the current term names, as the point to truncate to, an entry beyond the end of this
